@@ -10,6 +10,8 @@ expression translator.  What is regenerated from source:
   gen_guard_crps_method method             method not in [ecdf, fair] -> ValueError
   gen_crps_pair_cell   fcst fcst_i          |fcst - fcst_i|                 (summed over members, twice)
   gen_crps_obs_cell    fcst obs             |fcst - obs|                    (mean over members)
+  gen_crps_{pair,obs,under,over,count}_red   which reduction over the member dimension the source applies
+                                            ("sum" | "mean" | "count" | "size"); the model interprets the constant
   gen_crps_norm        method spread count  the ecdf / fair normalisation of the spread term
   gen_crps_total       obs_term spread      obs_term - spread
   gen_crps_under_cell  fcst obs             (obs - fcst).where(fcst < obs, 0).where(mask)
@@ -17,7 +19,8 @@ expression translator.  What is regenerated from source:
   gen_crps_spread_mask spread obs_term      spread.where(~isnan(obs_term))
   gen_chain_tail       tail x threshold     np.maximum / np.minimum
   gen_chain_interval   x lower upper        np.minimum(np.maximum(x, lower), upper)
-  gen_guard_interval   lower upper          lower >= upper -> ValueError
+  gen_guard_interval   lower upper          lower >= upper -> ValueError   (both thresholds Python scalars)
+  gen_guard_interval_arr lower upper        the comparison under `.any()` when a threshold is a DataArray
 """
 import ast
 
@@ -34,6 +37,19 @@ def _strip(e, op, T):
     if not _is_reduce(e, op):
         raise T.Unsupported(f"expected <expr>.{op}(dim={ENS}), found {ast.unparse(e)[:80]}")
     return e.func.value
+
+
+def _strip_any(e, T):
+    """<expr>.sum(dim=m) | <expr>.mean(dim=m)  ->  (expr, kind); the kind is emitted as a constant the model interprets
+    (NaN-skipping sum / mean), so a changed reduction yields a different model rather than an untranslatable site"""
+    for op in ("sum", "mean"):
+        if _is_reduce(e, op):
+            return e.func.value, op
+    raise T.Unsupported(f"expected <expr>.sum/mean(dim={ENS}), found {ast.unparse(e)[:80]}")
+
+
+def _kind(name, k):
+    return f'Definition {name} : string := "{k}".\n'
 
 
 class _IselToName(ast.NodeTransformer):
@@ -93,11 +109,13 @@ def crps_kernels(tree, site, T):
             and isinstance(loop.body[0].target, ast.Name) and loop.body[0].target.id == "fcst_spread_term"):
         raise U("member loop is not `for i in range(fcst.sizes[m]): fcst_spread_term += ...`")
     tr = _IselToName(loop.target.id)
-    pair = tr.visit(ast.parse(ast.unparse(_strip(loop.body[0].value, "sum", T)), mode="eval").body)
+    pair_e, pair_k = _strip_any(loop.body[0].value, T)
+    pair = tr.visit(ast.parse(ast.unparse(pair_e), mode="eval").body)
     if tr.hits != 1:
         raise U("loop body does not use fcst.isel({m: i}) exactly once")
     out = T.translate_guards(tree, dict(func="crps_for_ensemble", params={"method": "str"}, name="gen_guard_crps_method"))
     out += _defn(T, "gen_crps_pair_cell", {"fcst": "num", "fcst_i": "num"}, pair)
+    out += _kind("gen_crps_pair_red", pair_k)
     # normalisation: every further top-level statement touching the spread term except the components block
     norm = [s for s in touching[2:] if not (isinstance(s, ast.If) and ast.unparse(s.test) == "include_components")]
     comp = [s for s in touching[2:] if isinstance(s, ast.If) and ast.unparse(s.test) == "include_components"]
@@ -109,13 +127,17 @@ def crps_kernels(tree, site, T):
     out += "".join(f"  let {a} := {b} in\n" for a, b in lets) + "  fcst_spread_term.\n"
     # ens_count
     ec = [s for s in body if isinstance(s, ast.Assign) and "ens_count" in T_assigned(s)]
-    if len(ec) != 1 or ast.unparse(ec[0].value) != f"fcst.count({ENS})":
-        raise U("ens_count is not fcst.count(ensemble_member_dim)")
+    cnt = {f"fcst.count({ENS})": "count", f"fcst.sizes[{ENS}]": "size"}
+    if len(ec) != 1 or ast.unparse(ec[0].value) not in cnt:
+        raise U("ens_count is neither fcst.count(ensemble_member_dim) nor fcst.sizes[ensemble_member_dim]")
+    out += _kind("gen_crps_count_red", cnt[ast.unparse(ec[0].value)])
     # observation term and total
     ot = [s for s in body if isinstance(s, ast.Assign) and "fcst_obs_term" in T_assigned(s)]
     if len(ot) != 1:
         raise U("fcst_obs_term assigned more than once")
-    out += _defn(T, "gen_crps_obs_cell", {"fcst": "num", "obs": "num"}, _strip(ot[0].value, "mean", T))
+    obs_e, obs_k = _strip_any(ot[0].value, T)
+    out += _defn(T, "gen_crps_obs_cell", {"fcst": "num", "obs": "num"}, obs_e)
+    out += _kind("gen_crps_obs_red", obs_k)
     res = [s for s in body if isinstance(s, ast.Assign) and "result" in T_assigned(s)]
     if len(res) != 2 or "apply_weights" not in ast.unparse(res[1].value) or ast.unparse(res[1].value) != \
             "scores.functions.apply_weights(result, weights=weights).mean(dim=dims_for_mean)":
@@ -139,8 +161,10 @@ def crps_kernels(tree, site, T):
     mask = X.boolean(names["mask"][0])
     for nm in ("under_penalty", "over_penalty"):
         Xc = T.Expr({"fcst": "num", "obs": "num", "mask": "bool"})
-        s = Xc.num(_strip(names[nm][0], "mean", T))
+        comp_e, comp_k = _strip_any(names[nm][0], T)
+        s = Xc.num(comp_e)
         out += (f"Definition gen_crps_{nm.split('_')[0]}_cell (fcst : xv) (obs : xv) :=\n  let mask := {mask} in\n  {s}.\n")
+        out += _kind(f"gen_crps_{nm.split('_')[0]}_red", comp_k)
     out += _defn(T, "gen_crps_spread_mask", {"fcst_spread_term": "num", "fcst_obs_term": "num"}, names["fcst_spread_term"][0])
     if ast.unparse(names["result"][0]) != "xr.concat([result, under_penalty, over_penalty, fcst_spread_term], dim='component')":
         raise U("components are not concatenated as [result, under, over, spread]")
@@ -186,15 +210,26 @@ def chain_kernels(tree, site, T):
     if len(chk) != 1 or len(chk[0].orelse) != 1 or not T.is_raise_if(chk[0].orelse[0]) or len(chk[0].body) != 1 \
             or not T.is_raise_if(chk[0].body[0]):
         raise U("interval: threshold check skeleton")
-    arr_test = ast.unparse(chk[0].body[0].test)
+    if ast.unparse(chk[0].test) != "isinstance(lower_threshold, xr.DataArray) or isinstance(upper_threshold, xr.DataArray)":
+        raise U("interval: dispatch between array and scalar threshold check changed")
+    arr_test = chk[0].body[0].test
+    # <cmp>.any().values.item() | <cmp>.any().item() | <cmp>.any()  ->  <cmp>  (the model takes `any` over the broadcast thresholds)
+    e = arr_test
+    for attr in ("item", "values", "any"):
+        if attr == "values":
+            if isinstance(e, ast.Attribute) and e.attr == "values":
+                e = e.value
+            continue
+        if isinstance(e, ast.Call) and isinstance(e.func, ast.Attribute) and e.func.attr == attr and not e.args and not e.keywords:
+            e = e.func.value
+        elif attr == "any":
+            raise U("interval: array threshold check is not <comparison>.any()")
     sc_test = chk[0].orelse[0].test
-    if arr_test != "(lower_threshold >= upper_threshold).any().values.item()" or ast.unparse(sc_test) != "lower_threshold >= upper_threshold":
-        # the array branch must be the `.any()` of the very expression the scalar branch tests
-        if arr_test.replace(".any().values.item()", "").strip("()") != ast.unparse(sc_test):
-            raise U("interval: array and scalar threshold checks differ")
     Xg = T.Expr({"lower_threshold": "num", "upper_threshold": "num"})
     out += ("Definition gen_guard_interval (lower_threshold : xv) (upper_threshold : xv) : bool :=\n  "
             + Xg.boolean(sc_test) + ".\n")
+    out += ("Definition gen_guard_interval_arr (lower_threshold : xv) (upper_threshold : xv) : bool :=\n  "
+            + Xg.boolean(e) + ".\n")
     tw = T.find_function(tree, "tw_crps_for_ensemble")
     txt = [ast.unparse(s) for s in tw.body if not T.is_docstring(s)]
     want = ["if chaining_func_kwargs is None:\n    chaining_func_kwargs = {}",
